@@ -165,6 +165,13 @@ class StubCRTClient:
         with self.lock:
             self.requests.append(r)
         self.log.add('crt.make_request', idx=idx, type=str(kwargs.get('type')), recv_filepath=kwargs.get('recv_filepath'))
+        hook = getattr(self, 'inline_hook', None)
+        if hook is not None:
+            res = hook(r)
+            if res is not None:
+                # the request finishes - its whole done chain runs, on this very thread - BEFORE make_request() has returned
+                # (a tiny object, an immediate error): a legal completion order for the CRT
+                self.complete(r, *res)
         return r
 
     def on_cancel(self, req):
